@@ -634,7 +634,8 @@ impl InnerLocustDB {
                 };
 
                 let span_decode = tracer.start_span("decode");
-                let decoded = col.decode();
+                let arena = crate::mem_store::column::DecodeArena::default();
+                let decoded = col.decode(&arena);
                 tracer.end_span(span_decode);
 
                 let span_push = tracer.start_span("push");
